@@ -1,25 +1,27 @@
 import Tmv.Lemmas.Pipeline
 /-! The crash invariant of the commit pipeline (C05) and its preservation by `finalizeCommit`,
-by the handshake, and by a crash after any prefix of either. -/
+by the handshake (including the replay of any number of blocks to an application that is behind),
+and by a crash after any prefix of either. Positions are block indexes (`ht c k` = height of the
+k-th block, `ht c 0 = 0`), so that a genesis `InitialHeight` above 1 is covered. -/
 namespace Tmv.Pipeline
 
-/-- state at `n` (canonical app hash), block store at `st`, application at `ah` with open
-execution `p` and a journal the grammar accepts -/
-structure DInv (c : Chain) (d : Disk) (n st ah : Nat) (p : Option Pending) : Prop where
-  stateH : d.stateH = n
-  stateHash : d.stateHash = hist c n
-  storeH : d.storeH = st
-  app : AppAt c d.app ah p
+/-- state after `k` blocks (canonical app hash), block store after `st` blocks, application after
+`a` blocks with open execution `p` and a journal the grammar accepts -/
+structure DInv (c : Chain) (d : Disk) (k st a : Nat) (p : Option Pending) : Prop where
+  stateH : d.stateH = ht c k
+  stateHash : d.stateHash = histK c k
+  storeH : d.storeH = ht c st
+  app : AppAt c d.app a p
 
-/-- all three cursors at `n`, nothing open -/
-def Good (c : Chain) (d : Disk) (n : Nat) : Prop := DInv c d n n n none
+/-- all three cursors after `k` blocks, nothing open -/
+def Good (c : Chain) (d : Disk) (k : Nat) : Prop := DInv c d k k k none
 
-/-- what a crash can leave: the three cursors differ by at most one, in the order
-state ≤ app ≤ store, and when the application is ahead of the state the responses of that block
-are the ones saved last -/
+/-- what crashes and snapshot restores of the application can leave: the store is at the state or
+one block ahead; the application is anywhere at or behind the state, or (with the store) one block
+ahead of it, and then the responses of that block are the ones saved last -/
 def Inv (c : Chain) (d : Disk) : Prop :=
-  ∃ n, DInv c d n n n none ∨ DInv c d n (n + 1) n none ∨
-    (DInv c d n (n + 1) (n + 1) none ∧ d.lastResp = some (n + 1))
+  ∃ k, (∃ a, a ≤ k ∧ (DInv c d k k a none ∨ DInv c d k (k + 1) a none)) ∨
+    (DInv c d k (k + 1) (k + 1) none ∧ d.lastResp = some (ht c (k + 1)))
 
 /-- the predicate carried over every prefix: dying here leaves an `Inv` disk -/
 def CrashOK (c : Chain) (d : Disk) : Prop := Inv c (crash d)
@@ -27,40 +29,51 @@ def CrashOK (c : Chain) (d : Disk) : Prop := Inv c (crash d)
 theorem DInv.crash {c d n st ah p} (h : DInv c d n st ah p) : DInv c (crash d) n st ah none :=
   ⟨h.stateH, h.stateHash, h.storeH, h.app.restart⟩
 
-theorem crashOK_same {c d n p} (h : DInv c d n n n p) : CrashOK c d := ⟨n, .inl h.crash⟩
-theorem crashOK_store {c d n p} (h : DInv c d n (n + 1) n p) : CrashOK c d := ⟨n, .inr (.inl h.crash)⟩
-theorem crashOK_app {c d n} (h : DInv c d n (n + 1) (n + 1) none) (hr : d.lastResp = some (n + 1)) :
-    CrashOK c d := ⟨n, .inr (.inr ⟨h.crash, by simpa [Pipeline.crash] using hr⟩)⟩
+theorem crashOK_behind {c d k st a p} (h : DInv c d k st a p) (ha : a ≤ k) (hst : st = k ∨ st = k + 1) :
+    CrashOK c d := by
+  cases hst with
+  | inl e => exact ⟨k, .inl ⟨a, ha, .inl (e ▸ h.crash)⟩⟩
+  | inr e => exact ⟨k, .inl ⟨a, ha, .inr (e ▸ h.crash)⟩⟩
 
-/-- the deliver loop of `execBlockOnProxyApp` -/
-theorem deliver_run {c : Chain} {n st : Nat} (Q : Disk → Prop)
-    (hQ : ∀ d' p, DInv c d' n st n p → Q d') :
-    ∀ (rest pre : List Tx) (d : Disk), pre ++ rest = c (n + 1) →
-      DInv c d n st n (some ⟨n + 1, pre, false⟩) →
-      PrefAll Q d (rest.map (Eff.deliver (n + 1))) ∧
-        DInv c (applyEffs d (rest.map (Eff.deliver (n + 1)))) n st n (some ⟨n + 1, c (n + 1), false⟩)
+theorem crashOK_same {c d n p} (h : DInv c d n n n p) : CrashOK c d :=
+  crashOK_behind h (Nat.le_refl _) (.inl rfl)
+theorem crashOK_store {c d n p} (h : DInv c d n (n + 1) n p) : CrashOK c d :=
+  crashOK_behind h (Nat.le_refl _) (.inr rfl)
+theorem crashOK_app {c d n} (h : DInv c d n (n + 1) (n + 1) none) (hr : d.lastResp = some (ht c (n + 1))) :
+    CrashOK c d := ⟨n, .inr ⟨h.crash, by simpa [Pipeline.crash] using hr⟩⟩
+
+/-- the deliver loop of `execBlockOnProxyApp` (block `a+1` on an application after `a` blocks) -/
+theorem deliver_run {c : Chain} {k st a : Nat} (Q : Disk → Prop)
+    (hQ : ∀ d' p, DInv c d' k st a p → Q d') :
+    ∀ (rest pre : List Tx) (d : Disk), pre ++ rest = c (ht c (a + 1)) →
+      DInv c d k st a (some ⟨ht c (a + 1), pre, false⟩) →
+      PrefAll Q d (rest.map (Eff.deliver (ht c (a + 1)))) ∧
+        DInv c (applyEffs d (rest.map (Eff.deliver (ht c (a + 1))))) k st a
+          (some ⟨ht c (a + 1), c (ht c (a + 1)), false⟩)
   | [], pre, d, hp, h => by
-    have : pre = c (n + 1) := by simpa using hp
+    have : pre = c (ht c (a + 1)) := by simpa using hp
     subst this
     exact ⟨hQ _ _ h, by simpa [applyEffs] using h⟩
   | tx :: rest, pre, d, hp, h => by
-    have hget : (c (n + 1))[pre.length]? = some tx := by
+    have hget : (c (ht c (a + 1)))[pre.length]? = some tx := by
       rw [← hp]; simp
-    have h' : DInv c (applyEff d (.deliver (n + 1) tx)) n st n (some ⟨n + 1, pre ++ [tx], false⟩) :=
+    have h' : DInv c (applyEff d (.deliver (ht c (a + 1)) tx)) k st a (some ⟨ht c (a + 1), pre ++ [tx], false⟩) :=
       ⟨h.stateH, h.stateHash, h.storeH, h.app.deliver hget⟩
     have ih := deliver_run Q hQ rest (pre ++ [tx]) _ (by simpa using hp) h'
     exact ⟨⟨hQ _ _ h, ih.1⟩, by simpa [applyEffs] using ih.2⟩
 
 /-- `execBlockOnProxyApp`: Begin, the block's txs in order, End -/
-theorem exec_run {c : Chain} {d : Disk} {n st : Nat} (Q : Disk → Prop)
-    (hQ : ∀ d' p, DInv c d' n st n p → Q d') (h : DInv c d n st n none) :
-    PrefAll Q d (execEffs c (n + 1)) ∧
-      DInv c (applyEffs d (execEffs c (n + 1))) n st n (some ⟨n + 1, c (n + 1), true⟩) := by
-  have hb : DInv c (applyEff d (.begin (n + 1))) n st n (some ⟨n + 1, [], false⟩) :=
+theorem exec_run {c : Chain} {d : Disk} {k st a : Nat} (Q : Disk → Prop)
+    (hQ : ∀ d' p, DInv c d' k st a p → Q d') (h : DInv c d k st a none) :
+    PrefAll Q d (execEffs c (ht c (a + 1))) ∧
+      DInv c (applyEffs d (execEffs c (ht c (a + 1)))) k st a
+        (some ⟨ht c (a + 1), c (ht c (a + 1)), true⟩) := by
+  have hb : DInv c (applyEff d (.begin (ht c (a + 1)))) k st a (some ⟨ht c (a + 1), [], false⟩) :=
     ⟨h.stateH, h.stateHash, h.storeH, h.app.begin⟩
-  have hd := deliver_run Q hQ (c (n + 1)) [] _ (by simp) hb
-  have he : DInv c (applyEff (applyEffs (applyEff d (.begin (n + 1))) ((c (n + 1)).map (Eff.deliver (n + 1))))
-      (.endBlock (n + 1))) n st n (some ⟨n + 1, c (n + 1), true⟩) :=
+  have hd := deliver_run Q hQ (c (ht c (a + 1))) [] _ (by simp) hb
+  have he : DInv c (applyEff (applyEffs (applyEff d (.begin (ht c (a + 1))))
+      ((c (ht c (a + 1))).map (Eff.deliver (ht c (a + 1))))) (.endBlock (ht c (a + 1)))) k st a
+      (some ⟨ht c (a + 1), c (ht c (a + 1)), true⟩) :=
     ⟨hd.2.stateH, hd.2.stateHash, hd.2.storeH, hd.2.app.endBlock⟩
   unfold execEffs
   refine ⟨?_, ?_⟩
@@ -70,20 +83,33 @@ theorem exec_run {c : Chain} {d : Disk} {n st : Nat} (Q : Disk → Prop)
       exact ⟨by simpa [applyEffs] using hQ _ _ hd.2, by simpa [applyEffs, PrefAll] using hQ _ _ he⟩
   · simpa [applyEffs] using he
 
+/-- `sm.ExecCommitBlock` of block `a+1` on an application that is behind the state -/
+theorem execCommit_run {c : Chain} {d : Disk} {k st a : Nat} (ha : a + 1 ≤ k) (hst : st = k ∨ st = k + 1)
+    (h : DInv c d k st a none) :
+    PrefAll (CrashOK c) d (execCommit c (ht c (a + 1))) ∧
+      DInv c (applyEffs d (execCommit c (ht c (a + 1)))) k st (a + 1) none := by
+  have hx := exec_run (CrashOK c) (fun _ _ h' => crashOK_behind h' (by omega) hst) h
+  have h2 : DInv c (applyEff (applyEffs d (execEffs c (ht c (a + 1)))) .appCommit) k st (a + 1) none :=
+    ⟨hx.2.stateH, hx.2.stateHash, hx.2.storeH, hx.2.app.commit⟩
+  unfold execCommit
+  refine ⟨PrefAll.append hx.1 ⟨crashOK_behind hx.2 (by omega) hst, crashOK_behind h2 ha hst⟩, ?_⟩
+  rw [applyEffs_append]
+  exact h2
+
 /-- `ApplyBlock` on the real application, block already in the store -/
 theorem applyBlockReal_run {c : Chain} {d : Disk} {n : Nat} (h : DInv c d n (n + 1) n none) :
-    PrefAll (CrashOK c) d (applyBlockReal c (n + 1)) ∧
-      Good c (applyEffs d (applyBlockReal c (n + 1))) (n + 1) := by
+    PrefAll (CrashOK c) d (applyBlockReal c (ht c (n + 1))) ∧
+      Good c (applyEffs d (applyBlockReal c (ht c (n + 1)))) (n + 1) := by
   have hx := exec_run (CrashOK c) (fun _ _ h' => crashOK_store h') h
-  let d1 := applyEffs d (execEffs c (n + 1))
-  have h1 : DInv c d1 n (n + 1) n (some ⟨n + 1, c (n + 1), true⟩) := hx.2
-  let d2 := applyEff d1 (.saveResp (n + 1))
-  have h2 : DInv c d2 n (n + 1) n (some ⟨n + 1, c (n + 1), true⟩) :=
+  let d1 := applyEffs d (execEffs c (ht c (n + 1)))
+  have h1 : DInv c d1 n (n + 1) n (some ⟨ht c (n + 1), c (ht c (n + 1)), true⟩) := hx.2
+  let d2 := applyEff d1 (.saveResp (ht c (n + 1)))
+  have h2 : DInv c d2 n (n + 1) n (some ⟨ht c (n + 1), c (ht c (n + 1)), true⟩) :=
     ⟨h1.stateH, h1.stateHash, h1.storeH, h1.app⟩
   let d3 := applyEff d2 .appCommit
   have h3 : DInv c d3 n (n + 1) (n + 1) none := ⟨h2.stateH, h2.stateHash, h2.storeH, h2.app.commit⟩
-  have h3r : d3.lastResp = some (n + 1) := rfl
-  let d4 := applyEff d3 (.saveState (n + 1))
+  have h3r : d3.lastResp = some (ht c (n + 1)) := rfl
+  let d4 := applyEff d3 (.saveState (ht c (n + 1)))
   have h4 : DInv c d4 (n + 1) (n + 1) (n + 1) none :=
     ⟨rfl, h3.app.hash, h3.storeH, h3.app⟩
   unfold applyBlockReal
@@ -95,27 +121,29 @@ theorem applyBlockReal_run {c : Chain} {d : Disk} {n : Nat} (h : DInv c d n (n +
 
 /-- `ApplyBlock` on the mock application: the real one is not called -/
 theorem applyBlockMock_run {c : Chain} {d : Disk} {n : Nat} (h : DInv c d n (n + 1) (n + 1) none)
-    (hr : d.lastResp = some (n + 1)) :
-    PrefAll (CrashOK c) d (applyBlockMock (n + 1)) ∧
-      Good c (applyEffs d (applyBlockMock (n + 1))) (n + 1) := by
-  let d1 := applyEff d (.saveResp (n + 1))
+    (hr : d.lastResp = some (ht c (n + 1))) :
+    PrefAll (CrashOK c) d (applyBlockMock (ht c (n + 1))) ∧
+      Good c (applyEffs d (applyBlockMock (ht c (n + 1)))) (n + 1) := by
+  let d1 := applyEff d (.saveResp (ht c (n + 1)))
   have h1 : DInv c d1 n (n + 1) (n + 1) none := ⟨h.stateH, h.stateHash, h.storeH, h.app⟩
-  let d2 := applyEff d1 (.saveState (n + 1))
+  let d2 := applyEff d1 (.saveState (ht c (n + 1)))
   have h2 : DInv c d2 (n + 1) (n + 1) (n + 1) none := ⟨rfl, h1.app.hash, h1.storeH, h1.app⟩
   exact ⟨⟨crashOK_app h hr, crashOK_app h1 rfl, crashOK_same h2⟩, by simpa [applyEffs, applyBlockMock, Good] using h2⟩
 
 /-! ## the WAL marker / privval layer -/
 
-/-- effects that leave block-store height, WAL marker and privval height alone -/
+/-- effects that leave block-store height, WAL marker and privval alone -/
 def quiet : Eff → Bool
-  | .signVote _ => false
+  | .signVote _ _ => false
+  | .pvSign _ _ => false
   | .saveBlock _ => false
   | .walEnd _ => false
   | _ => true
 
-/-- a vote of the height in progress (store + 1) is only ever signed when the WAL holds the
-previous height's #ENDHEIGHT, so that the vote's WAL record can be replayed -/
-def WInv (d : Disk) : Prop := d.pvH ≤ d.storeH + 1 ∧ (d.pvH = d.storeH + 1 → d.walEnd = d.storeH)
+/-- a vote of the height in progress (the one after the store) is only ever signed when the WAL
+holds the previous height's #ENDHEIGHT, so that the vote's WAL record can be replayed -/
+def WInv (c : Chain) (d : Disk) : Prop :=
+  (d.pvH ≤ d.storeH ∨ d.pvH = nxt c d.storeH) ∧ (d.pvH = nxt c d.storeH → d.walEnd = d.storeH)
 
 theorem applyEff_quiet {d : Disk} {e : Eff} (h : quiet e = true) :
     (applyEff d e).storeH = d.storeH ∧ (applyEff d e).walEnd = d.walEnd ∧ (applyEff d e).pvH = d.pvH := by
@@ -131,8 +159,8 @@ theorem applyEffs_quiet {d : Disk} {es : List Eff} (h : ∀ e ∈ es, quiet e = 
     simp only [applyEffs, List.foldl_cons] at h2 ⊢
     exact ⟨h2.1.trans h1.1, h2.2.1.trans h1.2.1, h2.2.2.trans h1.2.2⟩
 
-theorem WInv.congr {d d' : Disk} (h : WInv d) (h1 : d'.storeH = d.storeH) (h2 : d'.walEnd = d.walEnd)
-    (h3 : d'.pvH = d.pvH) : WInv d' := by
+theorem WInv.congr {c : Chain} {d d' : Disk} (h : WInv c d) (h1 : d'.storeH = d.storeH) (h2 : d'.walEnd = d.walEnd)
+    (h3 : d'.pvH = d.pvH) : WInv c d' := by
   unfold WInv at *; rw [h1, h2, h3]; exact h
 
 theorem PrefAll.and {Q1 Q2 : Disk → Prop} {d : Disk} {es : List Eff} (h1 : PrefAll Q1 d es)
@@ -141,8 +169,8 @@ theorem PrefAll.and {Q1 Q2 : Disk → Prop} {d : Disk} {es : List Eff} (h1 : Pre
   | nil => exact ⟨h1, h2⟩
   | cons e es ih => exact ⟨⟨h1.1, h2.1⟩, ih h1.2 h2.2⟩
 
-theorem PrefAll.winv_quiet {d : Disk} {es : List Eff} (h : WInv d) (hq : ∀ e ∈ es, quiet e = true) :
-    PrefAll WInv d es := by
+theorem PrefAll.winv_quiet {c : Chain} {d : Disk} {es : List Eff} (h : WInv c d) (hq : ∀ e ∈ es, quiet e = true) :
+    PrefAll (WInv c) d es := by
   induction es generalizing d with
   | nil => exact h
   | cons e es ih =>
@@ -153,6 +181,13 @@ theorem quiet_exec (c : Chain) (h : Nat) : ∀ e ∈ execEffs c h, quiet e = tru
   intro e he
   simp only [execEffs, List.mem_append, List.mem_cons, List.mem_map, List.not_mem_nil, or_false] at he
   rcases he with (rfl | ⟨tx, _, rfl⟩) | rfl <;> rfl
+
+theorem quiet_execCommit (c : Chain) (h : Nat) : ∀ e ∈ execCommit c h, quiet e = true := by
+  intro e he
+  simp only [execCommit, List.mem_append, List.mem_cons, List.not_mem_nil, or_false] at he
+  rcases he with he | rfl
+  · exact quiet_exec c h e he
+  · rfl
 
 theorem quiet_real (c : Chain) (h : Nat) : ∀ e ∈ applyBlockReal c h, quiet e = true := by
   intro e he
@@ -167,53 +202,12 @@ theorem quiet_mock (h : Nat) : ∀ e ∈ applyBlockMock h, quiet e = true := by
   rcases he with rfl | rfl <;> rfl
 
 /-- the predicate carried over every prefix of a running node's programs -/
-def StepOK (c : Chain) (d : Disk) : Prop := CrashOK c d ∧ WInv d
-
-/-- deciding height `n+1` on a synced node whose WAL holds #ENDHEIGHT `n`: enabled, every crash
-prefix leaves an `Inv`/`WInv` disk, the complete run leaves a synced node at `n+1` with its marker -/
-theorem finalize_run {c : Chain} {d : Disk} {n : Nat} (h : Good c d n) (hw : d.walEnd = n)
-    (hwi : WInv d) (hgs : d.genesisSaved = true) :
-    ∃ es, finalizeEffs c d (d.stateH + 1) = some es ∧ PrefAll (StepOK c) d es ∧
-      Good c (applyEffs d es) (n + 1) ∧ (applyEffs d es).walEnd = n + 1 ∧ WInv (applyEffs d es) := by
-  have hs := h.stateH
-  have hv : validBlock c d (n + 1) = true := by
-    simp [validBlock, h.stateH, h.stateHash, hgs]
-  have hlt : d.storeH < n + 1 := by rw [h.storeH]; omega
-  let d0 := applyEff d (.signVote (n + 1))
-  have h0 : DInv c d0 n n n none := ⟨h.stateH, h.stateHash, h.storeH, h.app⟩
-  let d1 := applyEff d0 (.saveBlock (n + 1))
-  have h1 : DInv c d1 n (n + 1) n none := ⟨h.stateH, h.stateHash, rfl, h.app⟩
-  let d2 := applyEff d1 (.walEnd (n + 1))
-  have h2 : DInv c d2 n (n + 1) n none := ⟨h1.stateH, h1.stateHash, h1.storeH, h1.app⟩
-  have hr := applyBlockReal_run h2
-  have w0 : WInv d0 := ⟨by show n + 1 ≤ d.storeH + 1; rw [h.storeH]; omega, fun _ => by show d.walEnd = d.storeH; rw [hw, h.storeH]⟩
-  have w1 : WInv d1 := ⟨by show n + 1 ≤ n + 1 + 1; omega, fun e => by have : n + 1 = n + 1 + 1 := e; omega⟩
-  have w2 : WInv d2 := ⟨by show n + 1 ≤ n + 1 + 1; omega, fun e => by have : n + 1 = n + 1 + 1 := e; omega⟩
-  have hq := applyEffs_quiet (d := d2) (quiet_real c (n + 1))
-  refine ⟨[.signVote (n + 1)] ++ [.saveBlock (n + 1)] ++ [.walEnd (n + 1)] ++ applyBlockReal c (n + 1), ?_, ?_, ?_, ?_, ?_⟩
-  · simp [finalizeEffs, hs, hv, hlt]
-  · exact ⟨⟨crashOK_same h, hwi⟩, ⟨crashOK_same h0, w0⟩, ⟨crashOK_store h1, w1⟩,
-      PrefAll.and hr.1 (PrefAll.winv_quiet w2 (quiet_real c (n + 1)))⟩
-  · simpa [applyEffs] using hr.2
-  · have : (applyEffs d2 (applyBlockReal c (n + 1))).walEnd = n + 1 := hq.2.1
-    simpa [applyEffs] using this
-  · have : WInv (applyEffs d2 (applyBlockReal c (n + 1))) := w2.congr hq.1 hq.2.1 hq.2.2
-    simpa [applyEffs] using this
-
-/-- InitChain (+ genesis state save) on a disk whose application has committed nothing -/
-theorem initChain_run {c : Chain} {d : Disk} {st : Nat} (h : DInv c d 0 st 0 none)
-    (hQ : ∀ d', DInv c d' 0 st 0 none → CrashOK c d') :
-    PrefAll (CrashOK c) d [.initChain, .saveGenesis] ∧
-      DInv c (applyEffs d [.initChain, .saveGenesis]) 0 st 0 none ∧
-      (applyEffs d [.initChain, .saveGenesis]).genesisSaved = true := by
-  have h1 : DInv c (applyEff d .initChain) 0 st 0 none :=
-    ⟨h.stateH, h.stateHash, h.storeH, h.app.initChain⟩
-  have h2 : DInv c (applyEff (applyEff d .initChain) .saveGenesis) 0 st 0 none :=
-    ⟨h.stateH, h.stateHash, h.storeH, h.app.initChain⟩
-  exact ⟨⟨hQ _ h, hQ _ h1, hQ _ h2⟩, h2, rfl⟩
+def StepOK (c : Chain) (d : Disk) : Prop := CrashOK c d ∧ WInv c d
 
 theorem applyEff_gs {d : Disk} {e : Eff} (h : d.genesisSaved = true) : (applyEff d e).genesisSaved = true := by
   cases e <;> simp [applyEff, h]
+  case signVote hh v => split <;> simp [h]
+  case pvSign hh v => split <;> simp [h]
 
 theorem applyEffs_gs {d : Disk} {es : List Eff} (h : d.genesisSaved = true) :
     (applyEffs d es).genesisSaved = true := by
@@ -221,90 +215,418 @@ theorem applyEffs_gs {d : Disk} {es : List Eff} (h : d.genesisSaved = true) :
   | nil => simpa [applyEffs] using h
   | cons e es ih => simpa [applyEffs] using ih (applyEff_gs (e := e) h)
 
-/-- the handshake on any disk a crash can leave: it completes (`ok`), every crash prefix of the
-recovery leaves an `Inv` disk again, and the completed recovery leaves the three cursors equal -/
-theorem handshake_run {c : Chain} {d : Disk} (h : Inv c d) (hgen : 0 < d.storeH → d.genesisSaved = true) :
+theorem DInv.signVote {c : Chain} {d : Disk} {k st a : Nat} {p : Option Pending} (h : DInv c d k st a p)
+    (hh v : Nat) : DInv c (applyEff d (.signVote hh v)) k st a p := by
+  simp only [applyEff]
+  split
+  · exact ⟨h.stateH, h.stateHash, h.storeH, h.app⟩
+  · exact ⟨h.stateH, h.stateHash, h.storeH, h.app⟩
+
+/-- deciding block `n+1` on a synced node whose WAL holds the #ENDHEIGHT of block `n`: enabled,
+every crash prefix leaves an `Inv`/`WInv` disk, the complete run leaves a synced node after `n+1`
+blocks with its marker -/
+theorem finalize_run {c : Chain} {d : Disk} {n : Nat} (h : Good c d n) (hw : d.walEnd = ht c n)
+    (hwi : WInv c d) (hgs : d.genesisSaved = true) :
+    ∃ es, finalizeEffs c d (nxt c d.stateH) = some es ∧ PrefAll (StepOK c) d es ∧
+      Good c (applyEffs d es) (n + 1) ∧ (applyEffs d es).walEnd = ht c (n + 1) ∧ WInv c (applyEffs d es) := by
+  have hs := h.stateH
+  have hnx : nxt c d.stateH = ht c (n + 1) := by rw [hs, nxt_ht]
+  have hv : validBlock c d (ht c (n + 1)) = true := by
+    simp [validBlock, h.stateH, h.stateHash, hgs, nxt_ht, hist_pred_ht]
+  have hlt : d.storeH < ht c (n + 1) := by rw [h.storeH]; exact ht_lt c (by omega)
+  have hnxs : nxt c d.storeH = ht c (n + 1) := by rw [h.storeH, nxt_ht]
+  let H := ht c (n + 1)
+  let d0 := applyEff d (.signVote H 1)
+  have h0 : DInv c d0 n n n none := DInv.signVote h H 1
+  have f0 : d0.storeH = d.storeH ∧ d0.walEnd = d.walEnd ∧ d0.pvH = H := by
+    simp only [d0, applyEff]; split <;> simp_all
+  let d0' := applyEff d0 (.signVote H 2)
+  have h0' : DInv c d0' n n n none := DInv.signVote h0 H 2
+  have f0' : d0'.storeH = d.storeH ∧ d0'.walEnd = d.walEnd ∧ d0'.pvH = H := by
+    simp only [d0', applyEff]; split <;> simp_all
+  let d1 := applyEff d0' (.saveBlock H)
+  have h1 : DInv c d1 n (n + 1) n none := ⟨h0'.stateH, h0'.stateHash, rfl, h0'.app⟩
+  have f1 : d1.storeH = H ∧ d1.pvH = H := ⟨rfl, f0'.2.2⟩
+  let d2 := applyEff d1 (.walEnd H)
+  have h2 : DInv c d2 n (n + 1) n none := ⟨h1.stateH, h1.stateHash, h1.storeH, h1.app⟩
+  have f2 : d2.storeH = H ∧ d2.pvH = H ∧ d2.walEnd = H := ⟨rfl, f0'.2.2, rfl⟩
+  have hr := applyBlockReal_run h2
+  have hHlt : H < nxt c H := by
+    show ht c (n + 1) < nxt c (ht c (n + 1)); rw [nxt_ht]; exact ht_lt c (by omega)
+  have w0 : WInv c d0 := by
+    refine ⟨.inr ?_, fun _ => ?_⟩
+    · rw [f0.2.2, f0.1, hnxs]
+    · rw [f0.2.1, f0.1, hw, h.storeH]
+  have w0' : WInv c d0' := by
+    refine ⟨.inr ?_, fun _ => ?_⟩
+    · rw [f0'.2.2, f0'.1, hnxs]
+    · rw [f0'.2.1, f0'.1, hw, h.storeH]
+  have w1 : WInv c d1 := by
+    refine ⟨.inl ?_, fun e => ?_⟩
+    · rw [f1.1, f1.2]; exact Nat.le_refl _
+    · rw [f1.1, f1.2] at e; omega
+  have w2 : WInv c d2 := by
+    refine ⟨.inl ?_, fun e => ?_⟩
+    · rw [f2.1, f2.2.1]; exact Nat.le_refl _
+    · rw [f2.1, f2.2.1] at e; omega
+  have hq := applyEffs_quiet (d := d2) (quiet_real c H)
+  refine ⟨[.signVote H 1, .signVote H 2] ++ [.saveBlock H] ++ [.walEnd H] ++ applyBlockReal c H, ?_, ?_, ?_, ?_, ?_⟩
+  · rw [hnx]; simp [finalizeEffs, hv, hlt, H]
+  · exact ⟨⟨crashOK_same h, hwi⟩, ⟨crashOK_same h0, w0⟩, ⟨crashOK_same h0', w0'⟩, ⟨crashOK_store h1, w1⟩,
+      PrefAll.and hr.1 (PrefAll.winv_quiet w2 (quiet_real c H))⟩
+  · simpa [applyEffs] using hr.2
+  · have : (applyEffs d2 (applyBlockReal c H)).walEnd = H := hq.2.1
+    simpa [applyEffs] using this
+  · have : WInv c (applyEffs d2 (applyBlockReal c H)) := w2.congr hq.1 hq.2.1 hq.2.2
+    simpa [applyEffs] using this
+
+/-! ## the handshake -/
+
+/-- heights of the blocks `a+1 .. a+m` -/
+def hts (c : Chain) : Nat → Nat → List Nat
+  | _, 0 => []
+  | a, m + 1 => ht c (a + 1) :: hts c (a + 1) m
+
+theorem range'_hts (c : Chain) (a m : Nat) : List.range' (ht c (a + 1)) m = hts c a m := by
+  induction m generalizing a with
+  | zero => rfl
+  | succ m ih =>
+    have : ht c (a + 1) + 1 = ht c (a + 1 + 1) := by rw [ht_succ, ht_succ]; omega
+    simp [List.range'_succ, hts, this, ih]
+
+/-- the loop of `replayBlocks`: `m` blocks executed and committed on an application that is at
+least `m` blocks behind the state; never trips the app-hash assertion; every crash prefix is `Inv` -/
+theorem replayLoop_run {c : Chain} {d0 : Disk} {k st : Nat} (hst : st = k ∨ st = k + 1) :
+    ∀ (m a : Nat) (acc : List Eff) (appHash : Hist) (n : Nat), a + m ≤ k →
+      DInv c (applyEffs d0 acc) k st a none → (appHash = [] ∨ appHash = histK c a) →
+      ∃ es hash', replayLoop c d0 (hts c a m) acc appHash n = .ok (acc ++ es, hash', n + m) ∧
+        (0 < m → hash' = histK c (a + m)) ∧
+        PrefAll (CrashOK c) (applyEffs d0 acc) es ∧ DInv c (applyEffs d0 (acc ++ es)) k st (a + m) none ∧
+        (∀ e ∈ es, quiet e = true)
+  | 0, a, acc, appHash, n, _, h, _ => by
+    refine ⟨[], appHash, by simp [hts, replayLoop], by omega, crashOK_behind h (by omega) hst, by simpa using h, by simp⟩
+  | m + 1, a, acc, appHash, n, ham, h, hh => by
+    have hx := execCommit_run (c := c) (a := a) (by omega) hst h
+    have hchk : ¬ (appHash ≠ [] ∧ appHash ≠ hist c (ht c (a + 1) - 1)) := by
+      rw [hist_pred_ht]
+      rcases hh with e | e <;> simp [e]
+    have h' : DInv c (applyEffs d0 (acc ++ execCommit c (ht c (a + 1)))) k st (a + 1) none := by
+      rw [applyEffs_append]; exact hx.2
+    obtain ⟨es, hash', hr, hhash, hpre, hfin, hq⟩ :=
+      replayLoop_run hst m (a + 1) (acc ++ execCommit c (ht c (a + 1)))
+        (applyEffs d0 (acc ++ execCommit c (ht c (a + 1)))).app.hash (n + 1) (by omega) h'
+        (.inr h'.app.hash)
+    refine ⟨execCommit c (ht c (a + 1)) ++ es, hash', ?_, ?_, ?_, ?_, ?_⟩
+    · simp only [hts, replayLoop, hchk, if_false]
+      rw [hr]
+      simp [List.append_assoc]; omega
+    · intro _
+      by_cases hm : 0 < m
+      · rw [hhash hm]; congr 1; omega
+      · have hm0 : m = 0 := by omega
+        subst hm0
+        have hr' := hr
+        simp [hts, replayLoop] at hr'
+        rw [← hr'.2, h'.app.hash]
+    · refine PrefAll.append hx.1 ?_
+      rw [← applyEffs_append]; exact hpre
+    · rw [← List.append_assoc]
+      have : a + (m + 1) = a + 1 + m := by omega
+      rw [this]; exact hfin
+    · intro e he
+      rcases List.mem_append.mp he with he | he
+      · exact quiet_execCommit c _ e he
+      · exact hq e he
+
+/-- the `pre` of the handshake: InitChain iff the application reports height 0, the genesis state
+completed and saved iff moreover the state is empty -/
+def hsPre (d : Disk) : List Eff :=
+  if d.app.height = 0 then [.initChain] ++ (if d.stateH = 0 then [.saveGenesis] else []) else []
+
+theorem quiet_hsPre (d : Disk) : ∀ e ∈ hsPre d, quiet e = true := by
+  intro e he
+  simp only [hsPre] at he
+  split at he
+  · split at he <;> simp at he
+    · rcases he with rfl | rfl <;> rfl
+    · subst he; rfl
+  · simp at he
+
+/-- running `pre`: the application (which reports 0 if anything is sent) sees at most InitChain -/
+theorem hsPre_run {c : Chain} {d : Disk} {k st a : Nat} (h : DInv c d k st a none)
+    (hQ : ∀ d', DInv c d' k st a none → CrashOK c d') :
+    PrefAll (CrashOK c) d (hsPre d) ∧ DInv c (applyEffs d (hsPre d)) k st a none ∧
+      (d.app.height = 0 → d.stateH = 0 → (applyEffs d (hsPre d)).genesisSaved = true) := by
+  by_cases ha0 : d.app.height = 0
+  · have : a = 0 := by
+      have := h.app.height; rw [ha0] at this
+      cases a with
+      | zero => rfl
+      | succ a' => have := ht_pos c a'; omega
+    subst this
+    have h1 : DInv c (applyEff d .initChain) k st 0 none :=
+      ⟨h.stateH, h.stateHash, h.storeH, h.app.initChain⟩
+    have h2 : DInv c (applyEff (applyEff d .initChain) .saveGenesis) k st 0 none :=
+      ⟨h.stateH, h.stateHash, h.storeH, h.app.initChain⟩
+    by_cases hs : d.stateH = 0
+    · have : hsPre d = [.initChain, .saveGenesis] := by simp [hsPre, ha0, hs]
+      rw [this]
+      exact ⟨⟨hQ _ h, hQ _ h1, hQ _ h2⟩, h2, fun _ _ => rfl⟩
+    · have : hsPre d = [.initChain] := by simp [hsPre, ha0, hs]
+      rw [this]
+      exact ⟨⟨hQ _ h, hQ _ h1⟩, h1, fun _ e => absurd e hs⟩
+  · have : hsPre d = [] := by simp [hsPre, ha0]
+    rw [this]
+    exact ⟨hQ _ h, by simpa [applyEffs] using h, fun e => absurd e ha0⟩
+
+/-! evaluation of the case analysis, from facts about the three heights only -/
+
+theorem handshake_storeEmpty (c : Chain) (d : Disk) (h0 : d.storeH = 0) (hh : d.app.hash = d.stateHash) :
+    handshake c d = ⟨hsPre d, .storeEmpty, .ok, 0⟩ := by
+  unfold handshake hsPre; simp [h0, hh]
+
+theorem handshake_synced (c : Chain) (d : Disk) (h0 : d.storeH ≠ 0)
+    (hlow : ¬ (0 < d.app.height ∧ d.app.height < c.ih - 1)) (h4 : d.storeH = d.stateH)
+    (h5 : d.app.height = d.storeH) (hnx : ¬ (d.stateH > nxt c d.stateH)) (hh : d.app.hash = d.stateHash) :
+    handshake c d = ⟨hsPre d, .synced, .ok, 0⟩ := by
+  unfold handshake hsPre
+  have : ¬ (d.stateH = 0) := by rw [← h4]; exact h0
+  simp [h4, h5, this, hh, hnx] at hlow ⊢
+  intro h1; exact hlow h1
+
+theorem handshake_noMutate (c : Chain) (d : Disk) (h0 : d.storeH ≠ 0)
+    (hlow : ¬ (0 < d.app.height ∧ d.app.height < c.ih - 1)) (h4 : d.storeH = d.stateH)
+    (h5 : d.app.height < d.storeH) (hnx : ¬ (d.stateH > nxt c d.stateH)) :
+    handshake c d = replayBlocks c d (hsPre d) d.app.height d.storeH false .replayNoMutate := by
+  unfold handshake hsPre
+  have h1 : ¬ (d.storeH < d.app.height) := by omega
+  have h2 : ¬ (d.storeH < d.stateH) := by omega
+  have h3 : ¬ (d.storeH > nxt c d.stateH) := by rw [h4]; exact hnx
+  simp only [h0, if_false, hlow, h1, h2, h3]
+  simp [h4] at h5 ⊢
+  intro h6; omega
+
+theorem handshake_next (c : Chain) (d : Disk) (h0 : d.storeH ≠ 0)
+    (hlow : ¬ (0 < d.app.height ∧ d.app.height < c.ih - 1)) (h1 : ¬ (d.storeH < d.app.height))
+    (h4 : d.storeH = nxt c d.stateH) (hne : d.storeH ≠ d.stateH) (h2 : ¬ (d.storeH < d.stateH)) :
+    handshake c d =
+      (if d.app.height < d.stateH then replayBlocks c d (hsPre d) d.app.height d.storeH true .replayMutate
+       else if d.app.height = d.stateH then
+        if validBlock c (applyEffs d (hsPre d)) d.storeH then
+          ⟨hsPre d ++ applyBlockReal c d.storeH, .lastReal, .ok, 1⟩
+        else ⟨hsPre d, .lastReal, .errInvalidBlock, 0⟩
+       else if d.app.height = d.storeH then
+        if d.lastResp = some d.storeH then
+          if validBlock c (applyEffs d (hsPre d)) d.storeH then
+            ⟨hsPre d ++ applyBlockMock d.storeH, .lastMock, .ok, 1⟩
+          else ⟨hsPre d, .lastMock, .errInvalidBlock, 0⟩
+        else ⟨hsPre d, .lastMock, .errNoResp, 0⟩
+       else ⟨hsPre d, .uncovered, .panicUncovered, 0⟩) := by
+  unfold handshake hsPre
+  have h3 : ¬ (d.storeH > nxt c d.stateH) := by omega
+  simp only [h0, if_false, hlow, h1, h2, h3, hne]
+  simp [← h4]
+
+theorem first_ht (c : Chain) (a : Nat) :
+    (if ht c a + 1 = 1 then c.ih else ht c a + 1) = ht c (a + 1) := by
+  cases a with
+  | zero => simp [ht, Chain.ih]
+  | succ a' =>
+    have h1 := ht_succ c a'
+    have h2 := ht_succ c (a' + 1)
+    split <;> omega
+
+/-- `replayBlocks(..., mutateState=false)`: the application is behind a synced store/state -/
+theorem replayBlocks_noMutate_run {c : Chain} {d : Disk} {k a : Nat} (br : Branch)
+    (h : DInv c d (k + 1) (k + 1) a none) (ha : a < k + 1) :
+    let r := replayBlocks c d (hsPre d) d.app.height d.storeH false br
+    r.outcome = .ok ∧ PrefAll (CrashOK c) d r.effs ∧ Good c (applyEffs d r.effs) (k + 1) ∧
+      (∀ e ∈ r.effs, quiet e = true) := by
+  have hp := hsPre_run h (fun _ h' => crashOK_behind h' (by omega) (.inl rfl))
+  obtain ⟨es, hash', hloop, hhash, hlpre, hfin, hlq⟩ :=
+    replayLoop_run (c := c) (d0 := d) (k := k + 1) (st := k + 1) (.inl rfl) (k + 1 - a) a (hsPre d) [] 0
+      (by omega) hp.2.1 (.inl rfl)
+  have hlen : ht c (k + 1) + 1 - ht c (a + 1) = k + 1 - a := by rw [ht_succ, ht_succ]; omega
+  have hfinal : DInv c (applyEffs d (hsPre d ++ es)) (k + 1) (k + 1) (k + 1) none := by
+    have : a + (k + 1 - a) = k + 1 := by omega
+    rw [this] at hfin; exact hfin
+  have hhash' : hash' = histK c (k + 1) := by
+    have := hhash (by omega); rw [this]; congr 1; omega
+  have hres : replayBlocks c d (hsPre d) d.app.height d.storeH false br
+      = ⟨hsPre d ++ es, br, .ok, 0 + (k + 1 - a)⟩ := by
+    simp only [replayBlocks, Bool.false_eq_true, if_false, h.app.height, first_ht, h.storeH, hlen, range'_hts,
+      hloop]
+    simp [hhash', hfinal.stateHash]
+  simp only [hres]
+  refine ⟨trivial, PrefAll.append hp.1 hlpre, hfinal, ?_⟩
+  intro e he
+  rcases List.mem_append.mp he with he | he
+  · exact quiet_hsPre d e he
+  · exact hlq e he
+
+/-- `replayBlocks(..., mutateState=true)`: the application is behind the state, the store one ahead -/
+theorem replayBlocks_mutate_run {c : Chain} {d : Disk} {k a : Nat} (br : Branch)
+    (h : DInv c d (k + 1) (k + 1 + 1) a none) (ha : a < k + 1) :
+    let r := replayBlocks c d (hsPre d) d.app.height d.storeH true br
+    r.outcome = .ok ∧ PrefAll (CrashOK c) d r.effs ∧ Good c (applyEffs d r.effs) (k + 1 + 1) ∧
+      (∀ e ∈ r.effs, quiet e = true) := by
+  have hp := hsPre_run h (fun _ h' => crashOK_behind h' (by omega) (.inr rfl))
+  obtain ⟨es, hash', hloop, hhash, hlpre, hfin, hlq⟩ :=
+    replayLoop_run (c := c) (d0 := d) (k := k + 1) (st := k + 1 + 1) (.inr rfl) (k + 1 - a) a (hsPre d) [] 0
+      (by omega) hp.2.1 (.inl rfl)
+  have hpred : ht c (k + 1 + 1) - 1 = ht c (k + 1) := by rw [ht_succ, ht_succ]; omega
+  have hlen : ht c (k + 1) + 1 - ht c (a + 1) = k + 1 - a := by rw [ht_succ, ht_succ]; omega
+  have hfinal : DInv c (applyEffs d (hsPre d ++ es)) (k + 1) (k + 1 + 1) (k + 1) none := by
+    have : a + (k + 1 - a) = k + 1 := by omega
+    rw [this] at hfin; exact hfin
+  have hv : validBlock c (applyEffs d (hsPre d ++ es)) (ht c (k + 1 + 1)) = true := by
+    have := ht_pos c k
+    simp [validBlock, hfinal.stateH, hfinal.stateHash, nxt_ht, hist_pred_ht, this]
+  have hr := applyBlockReal_run hfinal
+  have hres : replayBlocks c d (hsPre d) d.app.height d.storeH true br
+      = ⟨hsPre d ++ es ++ applyBlockReal c (ht c (k + 1 + 1)), br, .ok, 0 + (k + 1 - a) + 1⟩ := by
+    simp only [replayBlocks, if_true, h.app.height, first_ht, h.storeH, hpred, hlen, range'_hts, hloop, hv]
+  simp only [hres]
+  refine ⟨trivial, PrefAll.append (PrefAll.append hp.1 hlpre) hr.1, ?_, ?_⟩
+  · rw [applyEffs_append]; exact hr.2
+  · intro e he
+    rcases List.mem_append.mp he with he | he
+    · rcases List.mem_append.mp he with he | he
+      · exact quiet_hsPre d e he
+      · exact hlq e he
+    · exact quiet_real c _ e he
+
+theorem hlow_ht (c : Chain) (a : Nat) : ¬ (0 < ht c a ∧ ht c a < c.ih - 1) := by
+  cases a with
+  | zero => simp
+  | succ a' => rw [ht_succ]; simp [Chain.ih]; omega
+
+theorem nxt_gt (c : Chain) (k : Nat) : ¬ (ht c k > nxt c (ht c k)) := by
+  rw [nxt_ht]; have := ht_lt c (show k < k + 1 by omega); omega
+
+/-- block 1 can only be in the store after the genesis state was completed and saved -/
+def GenOK (d : Disk) : Prop := 0 < d.storeH → d.genesisSaved = true
+
+/-- the handshake on any disk that crashes and snapshot restores of the application can leave: it
+completes (`ok`), every crash prefix of the recovery leaves an `Inv` disk again, and the completed
+recovery leaves the three cursors equal -/
+theorem handshake_run {c : Chain} {d : Disk} (h : Inv c d) (hgen : GenOK d) :
     (handshake c d).outcome = .ok ∧ PrefAll (CrashOK c) d (handshake c d).effs ∧
       (∃ m, Good c (applyEffs d (handshake c d).effs) m) ∧
       (∀ e ∈ (handshake c d).effs, quiet e = true) ∧
       (applyEffs d (handshake c d).effs).genesisSaved = true := by
-  obtain ⟨n, h | h | ⟨h, hr⟩⟩ := h
-  · -- synced
-    have ha := h.app.height; have hs := h.storeH; have ht := h.stateH
-    have hh : d.app.hash = d.stateHash := by rw [h.app.hash, h.stateHash]
-    cases n with
+  obtain ⟨k, ⟨a, hak, h | h⟩ | ⟨h, hr⟩⟩ := h
+  · -- store = state
+    have ha := h.app.height; have hs := h.storeH; have hst := h.stateH
+    have h4 : d.storeH = d.stateH := by rw [hs, hst]
+    cases k with
     | zero =>
-      have hi := initChain_run h (fun _ h' => crashOK_same h')
-      have : handshake c d = ⟨[.initChain, .saveGenesis], .storeEmpty, .ok, 0⟩ := by
-        simp [handshake, ha, hs, ht, hh]
+      have ha0 : a = 0 := by omega
+      subst ha0
+      have hp := hsPre_run h (fun _ h' => crashOK_same h')
+      have := handshake_storeEmpty c d (by rw [hs]; rfl) (by rw [h.app.hash, h.stateHash])
       rw [this]
-      exact ⟨rfl, hi.1, ⟨0, hi.2.1⟩, (by intro e he; simp at he; rcases he with rfl | rfl <;> rfl), hi.2.2⟩
-    | succ n =>
-      have : handshake c d = ⟨[], .synced, .ok, 0⟩ := by
-        simp [handshake, ha, hs, ht, hh]
-      rw [this]
-      exact ⟨rfl, crashOK_same h, ⟨n + 1, h⟩, by simp, by simpa [applyEffs] using hgen (by rw [hs]; omega)⟩
-  · -- block saved, not executed: replay the last block on the real application
-    have ha := h.app.height; have hs := h.storeH; have ht := h.stateH
-    cases n with
-    | zero =>
-      have hi := initChain_run h (fun _ h' => crashOK_store h')
-      have hv : validBlock c (applyEffs d [.initChain, .saveGenesis]) 1 = true := by
-        simp [validBlock, hi.2.1.stateH, hi.2.1.stateHash, hi.2.2]
-      have : handshake c d = ⟨[.initChain, .saveGenesis] ++ applyBlockReal c 1, .lastReal, .ok, 1⟩ := by
-        simp [handshake, ha, hs, ht, hv]
-      rw [this]
-      have hr := applyBlockReal_run hi.2.1
-      exact ⟨rfl, PrefAll.append hi.1 hr.1, ⟨1, by rw [applyEffs_append]; exact hr.2⟩, by
-        intro e he
-        rcases List.mem_append.mp he with he | he
-        · simp at he; rcases he with rfl | rfl <;> rfl
-        · exact quiet_real c 1 e he, by rw [applyEffs_append]; exact applyEffs_gs hi.2.2⟩
-    | succ n =>
-      have hv : validBlock c (applyEffs d []) (n + 1 + 1) = true := by
-        simp [validBlock, applyEffs, h.stateH, h.stateHash]
-      have : handshake c d = ⟨applyBlockReal c (n + 1 + 1), .lastReal, .ok, 1⟩ := by
-        have e1 : ¬ (n + 1 < n) := by omega
-        simp [handshake, ha, hs, ht, hv, e1]
-      rw [this]
-      have hr := applyBlockReal_run h
-      exact ⟨rfl, hr.1, ⟨n + 1 + 1, hr.2⟩, quiet_real c (n + 1 + 1), applyEffs_gs (hgen (by rw [hs]; omega))⟩
+      exact ⟨rfl, hp.1, ⟨0, hp.2.1⟩, quiet_hsPre d, hp.2.2 (by rw [ha]; rfl) (by rw [hst]; rfl)⟩
+    | succ k =>
+      have hpos := ht_pos c k
+      have h0 : d.storeH ≠ 0 := by rw [hs]; omega
+      have hgs : d.genesisSaved = true := hgen (by rw [hs]; exact hpos)
+      have hlow : ¬ (0 < d.app.height ∧ d.app.height < c.ih - 1) := by rw [ha]; exact hlow_ht c a
+      have hnx : ¬ (d.stateH > nxt c d.stateH) := by rw [hst]; exact nxt_gt c _
+      by_cases hEq : a = k + 1
+      · subst hEq
+        have hp := hsPre_run h (fun _ h' => crashOK_same h')
+        have := handshake_synced c d h0 hlow h4 (by rw [ha, hs]) hnx (by rw [h.app.hash, h.stateHash])
+        rw [this]
+        exact ⟨rfl, hp.1, ⟨_, hp.2.1⟩, quiet_hsPre d, applyEffs_gs hgs⟩
+      · have hlt : a < k + 1 := by omega
+        have := handshake_noMutate c d h0 hlow h4 (by rw [ha, hs]; exact ht_lt c hlt) hnx
+        rw [this]
+        have hr := replayBlocks_noMutate_run .replayNoMutate h hlt
+        exact ⟨hr.1, hr.2.1, ⟨_, hr.2.2.1⟩, hr.2.2.2, applyEffs_gs hgs⟩
+  · -- block saved, state not advanced
+    have ha := h.app.height; have hs := h.storeH; have hst := h.stateH
+    have hpos := ht_pos c k
+    have h0 : d.storeH ≠ 0 := by rw [hs]; omega
+    have hgs : d.genesisSaved = true := hgen (by rw [hs]; exact hpos)
+    have hlow : ¬ (0 < d.app.height ∧ d.app.height < c.ih - 1) := by rw [ha]; exact hlow_ht c a
+    have hak' : ht c a ≤ ht c k := by
+      rcases Nat.lt_or_eq_of_le hak with e | e
+      · exact Nat.le_of_lt (ht_lt c e)
+      · rw [e]; exact Nat.le_refl _
+    have hkk : ht c k < ht c (k + 1) := ht_lt c (by omega)
+    have hn := handshake_next c d h0 hlow (by rw [hs, ha]; omega) (by rw [hs, hst, nxt_ht])
+      (by rw [hs, hst]; omega) (by rw [hs, hst]; omega)
+    rw [hn]
+    by_cases hEq : a = k
+    · subst hEq
+      have hp := hsPre_run h (fun _ h' => crashOK_store h')
+      have hv : validBlock c (applyEffs d (hsPre d)) d.storeH = true := by
+        have hgs' : (applyEffs d (hsPre d)).genesisSaved = true := applyEffs_gs hgs
+        rw [hs]
+        simp [validBlock, hp.2.1.stateH, hp.2.1.stateHash, nxt_ht, hist_pred_ht, hgs']
+      have hr := applyBlockReal_run hp.2.1
+      have e1 : ¬ (d.app.height < d.stateH) := by rw [ha, hst]; omega
+      have e2 : d.app.height = d.stateH := by rw [ha, hst]
+      rw [if_neg e1, if_pos e2, if_pos hv, hs]
+      refine ⟨rfl, PrefAll.append hp.1 hr.1, ⟨_, by rw [applyEffs_append]; exact hr.2⟩, ?_, applyEffs_gs hgs⟩
+      intro e he
+      rcases List.mem_append.mp he with he | he
+      · exact quiet_hsPre d e he
+      · exact quiet_real c _ e he
+    · have hlt : a < k := by omega
+      obtain ⟨k', rfl⟩ : ∃ k', k = k' + 1 := ⟨k - 1, by omega⟩
+      have e1 : d.app.height < d.stateH := by rw [ha, hst]; exact ht_lt c hlt
+      rw [if_pos e1]
+      have hr := replayBlocks_mutate_run .replayMutate h hlt
+      exact ⟨hr.1, hr.2.1, ⟨_, hr.2.2.1⟩, hr.2.2.2, applyEffs_gs hgs⟩
   · -- application committed, state not saved: replay with the mock application
-    have ha := h.app.height; have hs := h.storeH; have ht := h.stateH
-    have hgs : d.genesisSaved = true := hgen (by rw [hs]; omega)
-    have hv : validBlock c (applyEffs d []) (n + 1) = true := by
-      simp [validBlock, applyEffs, h.stateH, h.stateHash, hgs]
-    have : handshake c d = ⟨applyBlockMock (n + 1), .lastMock, .ok, 1⟩ := by
-      have e1 : ¬ (n + 1 < n) := by omega
-      simp [handshake, ha, hs, ht, hv, hr, e1]
-    rw [this]
+    have ha := h.app.height; have hs := h.storeH; have hst := h.stateH
+    have hpos := ht_pos c k
+    have h0 : d.storeH ≠ 0 := by rw [hs]; omega
+    have hgs : d.genesisSaved = true := hgen (by rw [hs]; exact hpos)
+    have hlow : ¬ (0 < d.app.height ∧ d.app.height < c.ih - 1) := by rw [ha]; exact hlow_ht c _
+    have hkk : ht c k < ht c (k + 1) := ht_lt c (by omega)
+    have hn := handshake_next c d h0 hlow (by rw [hs, ha]; omega) (by rw [hs, hst, nxt_ht])
+      (by rw [hs, hst]; omega) (by rw [hs, hst]; omega)
+    rw [hn]
+    have hane : d.app.height ≠ 0 := by rw [ha]; omega
+    have hpre : hsPre d = [] := by simp [hsPre, hane]
+    have hv : validBlock c (applyEffs d (hsPre d)) d.storeH = true := by
+      rw [hpre, hs]
+      simp [validBlock, applyEffs, hst, h.stateHash, nxt_ht, hist_pred_ht, hgs]
+    have e1 : ¬ (d.app.height < d.stateH) := by rw [ha, hst]; omega
+    have e2 : ¬ (d.app.height = d.stateH) := by rw [ha, hst]; omega
+    have e3 : d.app.height = d.storeH := by rw [ha, hs]
+    have e4 : d.lastResp = some d.storeH := by rw [hr, hs]
+    rw [if_neg e1, if_neg e2, if_pos e3, if_pos e4, if_pos hv, hpre, hs]
     have hm := applyBlockMock_run h hr
-    exact ⟨rfl, hm.1, ⟨n + 1, hm.2⟩, quiet_mock (n + 1), applyEffs_gs hgs⟩
+    exact ⟨rfl, by simpa using hm.1, ⟨_, by simpa using hm.2⟩, by simpa using quiet_mock (ht c (k + 1)),
+      applyEffs_gs hgs⟩
 
 /-- a complete (re)start — handshake, then the repaired `catchupReplay` writing a missing marker —
-on any disk a crash can leave: every crash prefix leaves an `Inv`/`WInv` disk; run to completion
-the three cursors are equal, the WAL holds the marker of that height, and the node is live -/
-theorem start_run {c : Chain} {d : Disk} (h : Inv c d) (hw : WInv d)
-    (hgen : 0 < d.storeH → d.genesisSaved = true) :
+on any disk that crashes and snapshot restores can leave: every crash prefix leaves an `Inv`/`WInv`
+disk; run to completion the three cursors are equal, the WAL holds the marker of that height, and
+the node is live -/
+theorem start_run {c : Chain} {d : Disk} (h : Inv c d) (hw : WInv c d) (hgen : GenOK d) :
     (handshake c d).outcome = .ok ∧ PrefAll (StepOK c) d (startEffs c d) ∧
       (∃ m, Good c (applyEffs d (startEffs c d)) m) ∧
       (applyEffs d (startEffs c d)).walEnd = (applyEffs d (startEffs c d)).stateH ∧
-      WInv (applyEffs d (startEffs c d)) ∧ liveAfter c d = true ∧
+      WInv c (applyEffs d (startEffs c d)) ∧ liveAfter c d = true ∧
       (applyEffs d (startEffs c d)).genesisSaved = true := by
   obtain ⟨hok, hpre, ⟨m, hg⟩, hq, hgs⟩ := handshake_run h hgen
   have hf := applyEffs_quiet (d := d) hq
   let d' := applyEffs d (handshake c d).effs
-  have hw' : WInv d' := hw.congr hf.1 hf.2.1 hf.2.2
-  have hst : d'.storeH = m := hg.storeH
-  have hsh : d'.stateH = m := hg.stateH
+  have hw' : WInv c d' := hw.congr hf.1 hf.2.1 hf.2.2
+  have hst : d'.storeH = ht c m := hg.storeH
+  have hsh : d'.stateH = ht c m := hg.stateH
   have hpre' : PrefAll (StepOK c) d (handshake c d).effs := PrefAll.and hpre (PrefAll.winv_quiet hw hq)
   have hlive : liveAfter c d = true := by
     simp only [liveAfter, Bool.or_eq_true, decide_eq_true_eq]
     show d'.walEnd = d'.stateH ∨ d'.pvH ≤ d'.stateH
-    have h1 := hw'.1
-    by_cases hp : d'.pvH = d'.storeH + 1
-    · left; rw [hw'.2 hp, hst, hsh]
-    · right; rw [hsh]; rw [hst] at h1 hp; omega
+    rcases hw'.1 with h1 | h1
+    · right; rw [hsh, ← hst]; exact h1
+    · left; rw [hw'.2 h1, hst, hsh]
   by_cases hm : d'.walEnd = d'.stateH
   · have : startEffs c d = (handshake c d).effs := by
       simp only [startEffs, hok, if_true]
@@ -319,7 +641,7 @@ theorem start_run {c : Chain} {d : Disk} (h : Inv c d) (hw : WInv d)
       simp [this, d']
     rw [this]
     have hg2 : Good c (applyEff d' (.walEnd d'.stateH)) m := ⟨hg.stateH, hg.stateHash, hg.storeH, hg.app⟩
-    have hw2 : WInv (applyEff d' (.walEnd d'.stateH)) :=
+    have hw2 : WInv c (applyEff d' (.walEnd d'.stateH)) :=
       ⟨hw'.1, fun _ => by show d'.stateH = d'.storeH; rw [hsh, hst]⟩
     refine ⟨hok, PrefAll.append hpre' ⟨⟨crashOK_same hg, hw'⟩, ⟨crashOK_same hg2, hw2⟩⟩, ⟨m, ?_⟩, ?_, ?_, hlive, ?_⟩
     · rw [applyEffs_append]; exact hg2
@@ -327,16 +649,24 @@ theorem start_run {c : Chain} {d : Disk} (h : Inv c d) (hw : WInv d)
     · rw [applyEffs_append]; exact hw2
     · rw [applyEffs_append]; exact applyEffs_gs hgs
 
-/-- block 1 can only be in the store after the genesis state was completed and saved -/
-def GenOK (d : Disk) : Prop := 0 < d.storeH → d.genesisSaved = true
-
 theorem PrefAll.gs {d : Disk} {es : List Eff} (h : d.genesisSaved = true) : PrefAll GenOK d es := by
   induction es generalizing d with
   | nil => exact fun _ => h
   | cons e es ih => exact ⟨fun _ => h, ih (applyEff_gs h)⟩
 
 theorem genOK_step {d : Disk} {e : Eff} (h : GenOK d) (hs : ∀ x, e ≠ .saveBlock x) : GenOK (applyEff d e) := by
-  cases e <;> first | exact absurd rfl (hs _) | (intro hp; first | exact h hp | rfl)
+  cases e with
+  | saveBlock x => exact absurd rfl (hs x)
+  | saveGenesis => intro _; rfl
+  | signVote hh v =>
+    intro hp
+    simp only [applyEff] at hp ⊢
+    split at hp <;> (split <;> exact h hp)
+  | pvSign hh v =>
+    intro hp
+    simp only [applyEff] at hp ⊢
+    split at hp <;> (split <;> exact h hp)
+  | _ => exact h
 
 theorem PrefAll.genOK {d : Disk} {es : List Eff} (h : GenOK d) (hs : ∀ e ∈ es, ∀ x, e ≠ .saveBlock x) :
     PrefAll GenOK d es := by
